@@ -6,3 +6,5 @@ import J5V.Props.C13
 #print axioms J5V.Props.C13.C13_enum_zero_stable
 #print axioms J5V.Props.C13.C13_append_option_seq
 #print axioms J5V.Props.C13.C13_append_field_seq
+#print axioms J5V.Props.C13.C13_append_decl
+#print axioms J5V.Props.C13.C13_addMessage_prefix
